@@ -1228,6 +1228,86 @@ def _adf2x_axes(run, mu, pr):
         run.fail('C08-R5', K2 + 'axis-order', mu.relpath, st.lineno, 'parse_adas2x_rate fills %s of a (%s, %s) table: not sv[energy, density]' % (norm(st.targets[0]), d0, d1))
 
 
+# Field positions of the fixed-format ADAS records read by column (ADF21 / ADF22 header lines, the ADF12 block header and section sizes):
+# field -> (first column, end column) of the record line, or (number of values, values per line) of a readvalues() section.
+# The parsed tables equal the file's content only if every field is cut at these columns; the table is the format description the
+# parsers implement, recorded per *field* (not per source line) so that renaming or restructuring the parser does not touch it.
+FORMAT = {
+    ('utility', 'parse_adas2x_rate'): {
+        "raw['ZT']": ('3', '5'), "raw['SVREF']": ('13', '22'), "raw['SPEC']": ('29', '31'), "raw['DATE']": ('38', '46'), "raw['CODE']": ('53', '-1'),
+        'neb': ('1', '5'), 'ndt': ('6', '10'), "raw['TREF']": ('17', '26'), 'ntt': ('1', '5'), "raw['EREF']": ('12', '21'), "raw['DREF']": ('28', '37'),
+        "raw['EB']": ('rv', 'neb', '8'), "raw['DT']": ('rv', 'ndt', '8'), "raw['TT']": ('rv', 'ntt', '8'), "raw['SVT']": ('rv', 'ntt', '8')},
+    ('adf12', '_parse_block'): {
+        "rate['QEFREF']": ('rv', '1', '6'), "rate['ENER']": ('rv', '24', '6'), "rate['QENER']": ('rv', '24', '6'), "rate['TIEV']": ('rv', '12', '6'),
+        "rate['QTIEV']": ('rv', '12', '6'), "rate['DENSI']": ('rv', '24', '6'), "rate['QDENSI']": ('rv', '24', '6'), "rate['ZEFF']": ('rv', '12', '6'),
+        "rate['QZEFF']": ('rv', '12', '6'), "rate['BMAG']": ('rv', '12', '6'), "rate['QBMAG']": ('rv', '12', '6')},
+    ('adf12', 'parse_adf12'): {'rate_count': ('3', '5')},
+}
+# sections cut to the number of points the block header announces: field -> (first index, count variable position in the header)
+ADF12_CUT = {"rate['ENER']": 0, "rate['QENER']": 0, "rate['TIEV']": 1, "rate['QTIEV']": 1, "rate['DENSI']": 2, "rate['QDENSI']": 2,
+             "rate['ZEFF']": 3, "rate['QZEFF']": 3, "rate['BMAG']": 4, "rate['QBMAG']": 4}
+
+
+def _format_tables(run, mods):
+    run.describe('C08-R9', 'fixed-format fields are cut at the columns of the ADAS record layout; sections have their documented sizes')
+    for (mname, fname), table in FORMAT.items():
+        mi = mods.get(mname)
+        fn = mi.functions.get(fname) if mi is not None else None
+        if fn is None:
+            run.subject('C08-R9')
+            run.undecided('C08-R9', fname, 'function not found')
+            continue
+        got = {}
+        for st in ast.walk(fn):
+            if not isinstance(st, ast.Assign):
+                continue
+            tg = norm(st.targets[0])
+            for x in ast.walk(st.value):
+                if isinstance(x, ast.Subscript) and isinstance(x.slice, ast.Slice) and isinstance(x.value, (ast.Name, ast.Call)) \
+                        and not (isinstance(x.value, ast.Call) and dotted(x.value.func) == 'readvalues'):
+                    got.setdefault(tg, []).append((norm(x.slice.lower) if x.slice.lower is not None else None, norm(x.slice.upper) if x.slice.upper is not None else None))
+                if isinstance(x, ast.Call) and dotted(x.func) == 'readvalues' and len(x.args) >= 3:
+                    got.setdefault(tg, []).append(('rv', norm(x.args[1]), norm(x.args[2])))
+        for field, want in sorted(table.items()):
+            run.subject('C08-R9')
+            g = got.get(field)
+            if g is None:
+                run.undecided('C08-R9', '%s %s' % (fname, field), 'field not found under that name')
+            elif tuple(want) in [tuple(x) for x in g]:
+                run.ok('C08-R9', '%s %s' % (fname, field), str(want), sample=False)
+            else:
+                run.fail('C08-R9', 'cherab.openadas.parse.%s|%s|field:%s' % (mname, fname, field), mi.relpath, fn.lineno,
+                         '%s reads %s from %s; the record layout puts it at %s (columns of the line, or number of values / values per line of '
+                         'the section): the parsed value is not the one in the file' % (fname, field, g, want))
+    # the ADF12 scans are cut to the announced number of points, starting at the first value
+    mi = mods.get('adf12')
+    fn = mi.functions.get('_parse_block') if mi is not None else None
+    if fn is not None:
+        counts = None
+        for st in ast.walk(fn):
+            if isinstance(st, ast.Assign) and isinstance(st.targets[0], ast.Tuple) and len(st.targets[0].elts) == 5 and all(isinstance(e, ast.Name) for e in st.targets[0].elts) \
+                    and any(isinstance(c, ast.Call) and dotted(c.func) == 'readvalues' for c in ast.walk(st.value)) \
+                    and any(isinstance(c, ast.Call) and dotted(c.func) in ('int', 'map') for c in ast.walk(st.value)) is not None:
+                names = [e.id for e in st.targets[0].elts]
+                if all(n.startswith('n') for n in names):
+                    counts = names
+        for st in ast.walk(fn):
+            if isinstance(st, ast.Assign) and norm(st.targets[0]) in ADF12_CUT and isinstance(st.value, ast.Subscript) and isinstance(st.value.slice, ast.Slice):
+                run.subject('C08-R9')
+                field = norm(st.targets[0])
+                lo = norm(st.value.slice.lower) if st.value.slice.lower is not None else '0'
+                hi = norm(st.value.slice.upper) if st.value.slice.upper is not None else None
+                wanthi = counts[ADF12_CUT[field]] if counts else None
+                if lo == '0' and (wanthi is None or hi == wanthi):
+                    run.ok('C08-R9', '_parse_block %s cut' % field, '[0:%s]' % hi, sample=False)
+                elif lo != '0' or (wanthi is not None and hi in (counts or []) and hi != wanthi):
+                    run.fail('C08-R9', 'cherab.openadas.parse.adf12|_parse_block|cut:%s' % field, mi.relpath, st.lineno,
+                             '_parse_block keeps %s[%s:%s]; the scan holds its first %s values' % (field, lo, hi, wanthi or 'n'))
+                else:
+                    run.undecided('C08-R9', '_parse_block %s cut' % field, '[%s:%s]' % (lo, hi))
+    run.floor('C08-R9', 20)
+
+
 def _readvalues(run, mu, rv0):
     """fixed-width framing: value k of a line occupies characters [1 + 10 k, 10 (k + 1)); a new line every values_per_line values"""
     from ..inline import propagate
@@ -1348,6 +1428,7 @@ def _r5(run, mods):
     _adf2x_axes(run, mu, pr)
     rv = mu.functions['readvalues']
     _readvalues(run, mu, rv)
+    _format_tables(run, mods)
     # ADF12: the five scans (energy, temperature, density, Zeff, B) appear in the same order in the reference values, the
     # point counts and the scan blocks
     m12 = mods['adf12']
